@@ -74,7 +74,7 @@ CmdExpire(s, now, a) ==
                        \o (IF has THEN ".hasttl" ELSE ".nottl")
               doit == IF p.n <= 0 THEN One(RInt(1), DelKeys(s, {k}), lbl \o ".nonpositive")
                       ELSE One(RInt(1), SetExp(s, k, newd, newd), lbl \o ".set")
-              veto == One(RInt(0), s, lbl \o ".vetoed")
+              veto == One(RInt(0), s, lbl \o (IF p.n <= 0 THEN ".nonpositive" ELSE "") \o ".vetoed")   \* a vetoed EXPIRE changes nothing, whatever the time
           IN WithCorner(p.corner,
                         IF "no" \in conds THEN veto ELSE IF "maybe" \in conds THEN Two(doit, veto) ELSE doit,
                         s, "expire.corner")
